@@ -51,7 +51,7 @@ def gen_part(rng, tok, p_exc=0.0, kinds=("fail", "error"), p_write=0.3):
 
 OUTCOME_KINDS = ["pass", "fail", "error", "skipDeco", "skipSetUp", "skipBody", "xfail", "uxsuccess", "subFail",
                  "subFail2", "errTearDown", "bodyAndTearDown", "errSetUp", "errCleanup", "subSkip", "xfailSub",
-                 "skipTearDown"]
+                 "skipTearDown", "subFailThenSkip", "failThenSkipTearDown", "errThenSkipCleanup", "subSkipThenFail"]
 
 
 def gen_test(rng, tid, tok, kind=None, p_write=0.3):
@@ -103,6 +103,21 @@ def gen_test(rng, tid, tok, kind=None, p_write=0.3):
         t["subs"][0]["exc"] = fe
     elif kind == "skipTearDown":
         t["tearDown"]["exc"] = "skip"
+    elif kind == "subFailThenSkip":
+        t["subs"] = [gen_part(rng, tok, p_write=p_write) for _ in range(rng.choice([2, 3]))]
+        t["subs"][0]["exc"] = fe
+        t["subs"][-1]["exc"] = "skip"
+    elif kind == "subSkipThenFail":
+        t["subs"] = [gen_part(rng, tok, p_write=p_write) for _ in range(rng.choice([2, 3]))]
+        t["subs"][0]["exc"] = "skip"
+        t["subs"][-1]["exc"] = fe
+    elif kind == "failThenSkipTearDown":
+        t["body"]["exc"] = fe
+        t["tearDown"]["exc"] = "skip"
+    elif kind == "errThenSkipCleanup":
+        t["body"]["exc"] = fe
+        t["cleanups"] = [gen_part(rng, tok, p_write=p_write), gen_part(rng, tok, p_write=p_write)]
+        t["cleanups"][rng.randrange(2)]["exc"] = "skip"
     if rng.random() < 0.05:
         t["count"] = 3
     return t
